@@ -79,17 +79,32 @@ SPECS = [
          # one configuration has 165 million distinct states, about 1 h on 8 cores)
          proofs=[dict(tag="nofault", cinit="ConstInitNoFault", faults="nofault",
                       base_s=dict(init=8, step=2400, target=55), split=True,
-                      split_base_s=dict(StepAcceptBlock=200, StepFetchBlock=130, StepCommit=200, StepCV2=220,
-                                        StepCV2Again=210, StepPrepareRequest=150, StepPrepareResponse=150,
+                      inv_parts=["IndInv1", "IndInv2"],  # IndInv == IndInv1 /\\ IndInv2 in the wrapper
+                      inv_split_groups=["StepCommit", "StepCV2", "StepCV2Again", "StepAcceptBlock", "StepPrepareResponse"],
+                      split_base_s=dict(StepAcceptBlock=300, StepFetchBlock=130, StepCommit=350, StepCV2=340,
+                                        StepCV2Again=300, StepPrepareRequest=120, StepPrepareResponse=250,
                                         StepReceiveDoCV1=100, StepReceiveDoCV2=100, StepDoCV2=110, StepFaults=100,
                                         StepCV1=90, StepCV1Again=90, StepDoCV1=80))],
          byzantine_bounded=True),
 ]
 
+def mem_slots():
+    """How many Apalache jobs fit into the available memory (about 4.5 GB each for the largest spec)."""
+    try:
+        for line in open("/proc/meminfo"):
+            if line.startswith("MemAvailable:"):
+                return max(2, int(int(line.split()[1]) / 1024 / 1024 / 4.5))
+    except (OSError, ValueError):
+        pass
+    return 4
+
+
 def base_s(pr, ob):
     """Seconds this obligation took on the pristine tree (alone), used for scheduling and time-outs."""
     if ob.startswith("step:"):
-        return pr.get("split_base_s", {}).get(ob[5:], pr["base_s"]["step"] / 2.0)
+        parts = ob.split(":")
+        b = pr.get("split_base_s", {}).get(parts[1], pr["base_s"]["step"] / 2.0)
+        return b if len(parts) == 2 else b * 0.7
     return pr["base_s"][ob]
 
 
@@ -136,14 +151,18 @@ def sha256(path):
 
 
 def load_known():
+    """known: entries of /verif/known_findings.txt and of known_findings_C20.txt next to this file."""
     known = {}
-    try:
-        for line in open(KNOWN_FILE):
-            m = re.match(r"^known:\s+property=(\S+)\s+obligation=(\S+)\s*(.*)$", line.strip())
-            if m and m.group(1) == "C20":
-                known[m.group(2)] = m.group(3)
-    except OSError:
-        pass
+    for path in (os.path.join(HERE, "known_findings_C20.txt"), KNOWN_FILE):
+        try:
+            for line in open(path):
+                m = re.match(r"^known:\s+property=(\S+)\s+obligation=(\S+)\s*(.*)$", line.strip())
+                if m and m.group(1) == "C20":
+                    known[m.group(2)] = m.group(3)
+        except OSError:
+            pass
+    if os.environ.get("C20_IGNORE_KNOWN"):
+        known = {}
     return known
 
 
@@ -176,8 +195,9 @@ OB_ARGS = {
 
 
 def ob_args(ob):
-    if ob.startswith("step:"):  # one group of actions of a split step obligation
-        return ["--init=IndInit", "--next=" + ob[5:], "--inv=IndInv", "--length=1",
+    if ob.startswith("step:"):  # one group of actions of a split step obligation [: one part of IndInv]
+        parts = ob.split(":")
+        return ["--init=IndInit", "--next=" + parts[1], "--inv=" + (parts[2] if len(parts) > 2 else "IndInv"), "--length=1",
                 "--tuning-options=search.invariantFilter=1->.*"]
     return OB_ARGS[ob]
 
@@ -215,7 +235,10 @@ def apalache_obligation(spec, proof, ob, sdir, timeout):
     log = os.path.join(sdir, "apalache_%s.log" % tag)
     cmd = ["apalache-mc", "check", "--out-dir=" + os.path.join(sdir, "apalache-out"), "--run-dir=" + rundir,
            "--cinit=" + proof["cinit"], "--no-deadlock"] + ob_args(ob) + [spec["wrapper"]]
-    env = dict(os.environ, JVM_ARGS=os.environ.get("C20_APALACHE_JVM_ARGS", "-Xmx6g"))
+    # One Apalache job of the largest spec needs about 2 GB of JVM heap plus 2 GB of native z3 memory; the default
+    # 4 GB heap with G1 made 12 parallel jobs exceed 62 GB of RAM.  Serial GC: the job is single threaded anyway.
+    env = dict(os.environ, JVM_ARGS=os.environ.get("C20_APALACHE_JVM_ARGS", "-Xmx2g"),
+               JVM_GC_ARGS=os.environ.get("C20_APALACHE_GC_ARGS", "-XX:+UseSerialGC"))
     rc, secs = run(cmd, sdir, log, timeout, env)
     text = open(log, errors="replace").read()
     if rc is None:
@@ -391,7 +414,11 @@ def work(tier, seed, only, known, scratch, st, t_start):
             groups = split_groups(s) if pr.get("split") else None
             if groups:
                 for g in groups:
-                    ap_jobs.append((s, pr, "step:" + g))
+                    if g in pr.get("inv_split_groups", ()):  # expensive action: one job per half of IndInv
+                        for part in pr["inv_parts"]:
+                            ap_jobs.append((s, pr, "step:%s:%s" % (g, part)))
+                    else:
+                        ap_jobs.append((s, pr, "step:" + g))
             else:
                 ap_jobs.append((s, pr, "step"))
             ap_jobs.append((s, pr, "target"))
@@ -423,7 +450,7 @@ def work(tier, seed, only, known, scratch, st, t_start):
     # quick tier: Apalache obligations in parallel + TLC all-good for the bounded-only specs + witnesses
     n_tlc_bg = len(bounded_only)
     tlc_bg_workers = max(2, min(8, NCPU // 2)) if n_tlc_bg else 0
-    ap_par = max(1, int(os.environ.get("C20_APALACHE_PAR", str(max(2, (NCPU - tlc_bg_workers) * 3 // 4)))))
+    ap_par = max(1, int(os.environ.get("C20_APALACHE_PAR", str(max(2, min((NCPU - tlc_bg_workers) * 3 // 4, mem_slots()))))))
     say("C20 %s: %d Apalache obligations (%d in parallel), %d bounded-only spec(s), scratch %s" % (
         tier, len(ap_jobs), ap_par, len(bounded_only), scratch))
     tlc_budget = float(os.environ.get("C20_TLC_ALLGOOD_TIMEOUT", "1500" if tier == "quick" else "7200"))
@@ -539,12 +566,22 @@ def work(tier, seed, only, known, scratch, st, t_start):
     # ---- thorough tier: TLC cross-check of every spec for every allowed fault set (within a global budget)
     if tier == "thorough":
         budget = float(os.environ.get("C20_THOROUGH_BUDGET_S", "5400"))
-        per_cfg = float(os.environ.get("C20_THOROUGH_PER_CONFIG_S", "900"))
+        per_cfg = float(os.environ.get("C20_THOROUGH_PER_CONFIG_S", "1200"))
         t0 = time.time()
-        # cheap specs first so that the budget is spent where runs can finish
-        order = {"dbft": 0, "dbft_antiMEV": 1, "dbftCV3": 2, "dbftMultipool": 3, "dbftCentralizedCV": 4}
-        for s in sorted(live, key=lambda x: order.get(x["id"], 9)):
-            for fs in fault_sets("all"):
+        # cheapest configurations first (seconds measured on 16 cores on the pristine tree), so that the budget is
+        # spent where runs can finish; runs that cannot finish within the per-configuration cap come last
+        est = {"dbft": dict(good=4, dead=5, byz=8, both=10),
+               "dbft_antiMEV": dict(good=8, dead=12, byz=52, both=100),
+               "dbftCV3": dict(good=20, dead=40, byz=130, both=200),
+               "dbftCentralizedCV": dict(good=160, dead=210, byz=2500, both=4000),
+               "dbftMultipool": dict(good=900, dead=1500, byz=3000, both=5000)}
+
+        def klass(fs):
+            return "good" if not fs[0] and not fs[1] else "dead" if not fs[0] else "byz" if not fs[1] else "both"
+        plan = sorted(((est.get(s["id"], {}).get(klass(fs), 999), i, s, fs)
+                       for s in live for i, fs in enumerate(fault_sets("all"))), key=lambda x: (x[0], x[1]))
+        for _, _, s, fs in plan:
+            if True:
                 key = (s["id"], cfg_name(fs))
                 if key in tlc_done and tlc_done[key]["status"] != "incomplete":
                     continue
@@ -572,7 +609,7 @@ def work(tier, seed, only, known, scratch, st, t_start):
                                        tlc=runs))
         for wit in s.get("witnesses", []):
             st["standins"].append(dict(spec=s["id"], reason="fault sets with RMFault /= {} are outside the inductive proof (%s): the property is FALSE there, see known findings" % wit["obligation"],
-                                       tlc=[summ(r) for (sid, c), r in tlc_done.items() if sid == s["id"] and not c.startswith("Fnone")]))
+                                       tlc=[summ(r) for r in st["tlc_runs"] if r["spec"] == s["id"] and r.get("RMFault") != "{}"]))
 
     return finish(tier, seed, st, results, t_start, known)
 
@@ -682,6 +719,8 @@ def finish(tier, seed, st, results, t_start, known):
         json.dump(ev, f, indent=1)
     say("property=C20 tier=%s obligations=%d discharged=%d known=%d violations=%d undecided=%d engine_errors=%d wall=%.1fs" % (
         tier, n_ob, n_proved, len(st["known_hits"]), len(st["violations"]), len(st["undecided"]) , len(st["errors"]), wall))
+    if st["known_hits"]:
+        say("NOTE property=C20 does NOT hold on this tree: known finding(s) %s still reproduce (reported, not counted as new violations)" % ", ".join(st["known_hits"]))
     if st["violations"]:
         return 1
     if st["undecided"] or st["errors"]:
